@@ -42,11 +42,37 @@ def main():
     live = [fx.resolve(m, q) for m, q in fx.POOL]
     for c in live:
         ct.of(c)
+    # subscripted user generics are pseudo classes of the class table (see render_fixture.ALIASES): equal aliases are ==
+    # and hash alike, so both the traced object and the object eval() produces from the stub text map to the same number
+    live_alias = [fx.resolve_alias(i) for i in range(len(fx.ALIASES))]
+    alias_code = {}
+    for i, a in enumerate(live_alias):
+        alias_code[a] = ct.next
+        ct.next += 1
+    alias_rows = [(alias_code[a], fx.ALIASES[i][0], fx.alias_text(i)[len(fx.ALIASES[i][0]) + 1:])
+                  for i, a in enumerate(live_alias)]
+
+    def alias_of(t):
+        try:
+            return alias_code.get(t)
+        except TypeError:
+            return None
+
+    _reify_type = common.reify_type
+
+    def reify_type_with_aliases(t, ctab):
+        n = alias_of(t)
+        if n is not None:
+            return f"(TCls {coq_N(n)})"
+        return _reify_type(t, ctab)
+    common.reify_type = reify_type_with_aliases      # common.reify_type recurses through its module-level name
 
     def build(j):
         k = j[0]
         if k == "cls":
             return live[j[1]]
+        if k == "alias":
+            return live_alias[j[1]]
         if k == "any":
             return Any
         if k == "callable":
@@ -159,6 +185,8 @@ def main():
         def reify(t, fuel):
             if fuel <= 0:
                 return None
+            if alias_of(t) is not None:
+                return f"(TCls {coq_N(alias_of(t))})"
             if t is Any:
                 return "TAny"
             if t is None:
@@ -270,6 +298,8 @@ def main():
     rows = []
     for c, n in sorted(ct.code.items(), key=lambda kv: kv[1]):
         rows.append(f"({coq_N(n)}, ({coq_str(c.__module__)}, {coq_str(c.__qualname__)}))")
+    for n, m, q in alias_rows:
+        rows.append(f"({coq_N(n)}, ({coq_str(m)}, {coq_str(q)}))")
     json.dump({"ct": coq_list(rows), "results": results}, open(out_path, "w"))
 
 
